@@ -23,93 +23,40 @@ fn leaf_coord(d: &tr::Dag, id: u32) -> Option<u32> {
 }
 
 /// events of one execution, in execution order
-/// `order`: removal order observed on the same point (f64 run, O3 log), when it is unambiguous.
-pub fn events_of(d: &tr::Dag, obs: Option<&Obs<Tr>>, outcome: &Outcome, log: &[(String, Value)], lattice: &[Option<(i64, i64)>], order: Option<&[usize]>, allowed: &[f64]) -> Vec<Value> {
+/// Events of one execution.  Reads are reported per coordinate (sorted by index): whether the coordinate acquired
+/// a use at all, whether it was narrowed to f64 as a bare coordinate, and its lattice value when it has one.
+/// Which ROLE a coordinate plays is decided by the specification (by its index), not by the recorder; the
+/// order in which the code happens to touch the coordinates is not part of any property.
+pub fn events_of(d: &tr::Dag, obs: Option<&Obs<Tr>>, outcome: &Outcome, log: &[(String, Value)], lattice: &[Option<(i64, i64)>], _order: Option<&[usize]>, allowed: &[f64]) -> Vec<Value> {
     let leafsets = d.leaf_sets();
-    // coordinates with a DATA path into a returned quantity (when the call returned Ok)
-    let data_coords: Option<tr::Leaves> = obs.map(|o| {
-        let mut acc = tr::Leaves::default();
-        let mut add = |t: &Tr| { acc = acc.union(leafsets[t.id as usize]); };
-        add(&o.u); add(&o.v); add(&o.jacobian); add(&o.u_trop); add(&o.v_trop);
-        for k in &o.loop_momenta { for t in k { add(t); } }
-        if let Some(m) = &o.meta {
-            for r in m.l_matrix.iter().chain(m.q_vectors.iter()).chain(m.u_vectors.iter()).chain(m.shift.iter()).chain(m.inverse.iter()) { for t in r { add(t); } }
-            add(&m.lambda); add(&m.det);
-        }
-        acc
-    });
-    let is_data = |c: u32| -> bool { data_coords.map(|l| l.x >> c.min(127) & 1 == 1).unwrap_or(false) };
-    // merged timeline: (position, order-within, item)
-    enum It<'a> { Node(u32), Ev(&'a Event) }
-    let mut tl: Vec<(u32, u8, It)> = vec![];
-    for (i, n) in d.nodes.iter().enumerate() {
-        if !matches!(n.op, Op::Leaf(..) | Op::Const(_)) {
-            tl.push((i as u32, 1, It::Node(i as u32)));
-        }
-    }
-    for e in &d.events {
-        let at = match e { Event::Cmp { at, .. } | Event::Narrow { at, .. } | Event::Widen { at, .. } => *at };
-        tl.push((at, 0, It::Ev(e)));
-    }
-    tl.sort_by_key(|x| (x.0, x.1));
-    // coordinates some comparison is about
-    let ctl_candidates: std::collections::BTreeSet<u32> = d.events.iter().filter_map(|e| match e { Event::Cmp { a, b, .. } => cmp_coord(d, &leafsets, *a, *b), _ => None }).collect();
-    let mut first_use: std::collections::BTreeSet<u32> = Default::default();
+    let used = d.used();
     let mut evs: Vec<Value> = vec![];
-    let mut nctl = 0usize;
-    let mut i = 0;
-    while i < tl.len() {
-        match &tl[i].2 {
-            It::Ev(Event::Cmp { a, b, .. }) => {
-                let c = cmp_coord(d, &leafsets, *a, *b).filter(|c| !is_data(*c));
-                if let Some(c) = c {
-                    // group the consecutive comparisons against this coordinate
-                    let mut n = 1;
-                    let mut j = i + 1;
-                    while j < tl.len() {
-                        match &tl[j].2 {
-                            It::Ev(Event::Cmp { a: a2, b: b2, .. }) if cmp_coord(d, &leafsets, *a2, *b2) == Some(c) => { n += 1; j += 1; }
-                            It::Node(_) => j += 1,
-                            It::Ev(Event::Widen { .. }) => j += 1,
-                            _ => break,
-                        }
-                    }
-                    if first_use.insert(c) {
-                        let (un, ud) = lattice.get(c as usize).copied().flatten().unwrap_or((0, 0));
-                        // which edge this choice removed: from the observed removal order (step = number of
-                        // control reads so far); 0 = unknown
-                        let edge = order.and_then(|o| o.get(nctl)).map(|e| e + 1).unwrap_or(0);
-                        nctl += 1;
-                        evs.push(json!({"ev": "Read", "coord": c, "how": "ctl", "ncmp": n, "edge": edge, "unum": un, "uden": ud}));
-                    }
-                    // skip the grouped comparisons but still process nodes in between for first uses
-                    let mut k = i + 1;
-                    while k < j {
-                        if let It::Node(id) = &tl[k].2 { node_use_f(d, *id, &mut first_use, &mut evs, &|c| obs.is_some() && !is_data(c) && ctl_candidates.contains(&c)); }
-                        k += 1;
-                    }
-                    i = j;
-                    continue;
-                }
-            }
-            It::Ev(Event::Narrow { node, .. }) => {
-                match leaf_coord(d, *node) {
-                    Some(c) if first_use.insert(c) => evs.push(json!({"ev": "Read", "coord": c, "how": "narrow", "ncmp": 0, "edge": 0, "unum": 0, "uden": 0})),
-                    Some(c) => evs.push(json!({"ev": "Narrow", "coord": c, "nleaves": 1})),
-                    None => {
-                        let ls = leafsets[*node as usize];
-                        // a value built from constants only (table entries, literals) carries no user precision
-                        if ls.x != 0 || ls.other != 0 {
-                            evs.push(json!({"ev": "Narrow", "coord": -1, "nleaves": ls.xs().len(), "other": ls.other != 0}));
-                        }
+    // bare coordinates passed to to_f64
+    let mut narrowed_bare: std::collections::BTreeMap<u32, usize> = Default::default();
+    let mut other_narrows: Vec<Value> = vec![];
+    for e in &d.events {
+        if let Event::Narrow { node, .. } = e {
+            match leaf_coord(d, *node) {
+                Some(c) => { *narrowed_bare.entry(c).or_insert(0) += 1; }
+                None => {
+                    let ls = leafsets[*node as usize];
+                    // a value built from constants only (table entries, literals) carries no user precision
+                    if ls.x != 0 || ls.other != 0 {
+                        other_narrows.push(json!({"ev": "Narrow", "coord": -1, "nleaves": ls.xs().len(), "other": ls.other != 0}));
                     }
                 }
             }
-            It::Ev(Event::Widen { .. }) => {}
-            It::Node(id) => node_use_f(d, *id, &mut first_use, &mut evs, &|c| obs.is_some() && !is_data(c) && ctl_candidates.contains(&c)),
         }
-        i += 1;
     }
+    let mut coords: Vec<u32> = d.nodes.iter().enumerate().filter_map(|(i, n)| match n.op { Op::Leaf(0, c) if used[i] => Some(c), _ => None }).collect();
+    coords.sort();
+    coords.dedup();
+    for &c in &coords {
+        let (un, ud) = lattice.get(c as usize).copied().flatten().unwrap_or((0, 0));
+        evs.push(json!({"ev": "Read", "coord": c, "narrow": narrowed_bare.contains_key(&c), "unum": un, "uden": ud}));
+    }
+    for (c, n) in &narrowed_bare { for _ in 1..*n { evs.push(json!({"ev": "Narrow", "coord": c, "nleaves": 1, "other": false})); } }
+    evs.extend(other_narrows);
     // Ret
     let used = d.used();
     let used_coords: Vec<u32> = d.nodes.iter().enumerate().filter_map(|(i, n)| match n.op { Op::Leaf(0, c) if used[i] => Some(c), _ => None }).collect();
@@ -183,34 +130,11 @@ pub fn events_of(d: &tr::Dag, obs: Option<&Obs<Tr>>, outcome: &Outcome, log: &[(
     evs
 }
 
-/// the coordinate a comparison is about: an operand that is a coordinate leaf, or whose only x-space
-/// dependency is one coordinate not used before in any other role
-fn cmp_coord(d: &tr::Dag, ls: &[tr::Leaves], a: u32, b: u32) -> Option<u32> {
-    if let Some(c) = leaf_coord(d, b).or_else(|| leaf_coord(d, a)) { return Some(c); }
-    // e.g. `u - running_sum <= 0`: the comparison is about coordinate c when c is the only coordinate its operands depend on
-    let l = ls[a as usize].union(ls[b as usize]);
-    if l.other == 0 && l.x.count_ones() == 1 { return Some(l.x.trailing_zeros()); }
-    None
-}
-
-fn node_use_f(d: &tr::Dag, id: u32, first_use: &mut std::collections::BTreeSet<u32>, evs: &mut Vec<Value>, defer: &dyn Fn(u32) -> bool) {
-    let n = &d.nodes[id as usize];
-    for (pos, arg) in [(0, n.a), (1, n.b)] {
-        if arg == tr::NOARG { continue; }
-        if let Some(c) = leaf_coord(d, arg) {
-            if defer(c) { continue; }   // only feeds comparisons: the comparison will report it as a control read
-            if first_use.insert(c) {
-                let _ = pos;
-                let op = format!("{:?}", n.op).to_lowercase();
-                evs.push(json!({"ev": "Read", "coord": c, "how": "data", "op": op, "ncmp": 0, "edge": 0, "unum": 0, "uden": 0}));
-            }
-        }
-    }
-}
-
 pub struct FlowRun {
     pub events: Vec<Value>,
     pub outcome: Outcome,
+    /// removal order (1-based edges) observed in the repository's debug log on the same point; empty = not observed
+    pub order: Vec<usize>,
 }
 
 /// one traced execution
@@ -254,7 +178,7 @@ pub fn trace_one(s: &dyn DynSampler, g: &InstGraph, x: &[f64], lattice: &[Option
     allowed.extend([dd / 2.0, -(dd / 2.0), dd / 2.0 * nl + dod, -dod, 0.0, 1.0, 2.0, 0.5, 5.0, std::f64::consts::PI, 1.0 - 1.0e-9]);
     if let Some(t) = set.stability { allowed.push(t); }
     let events = events_of(&dag, out.obs.as_ref(), &out.outcome, &out.log, lattice, order.as_deref(), &allowed);
-    FlowRun { events, outcome: out.outcome }
+    FlowRun { events, outcome: out.outcome, order: order.map(|o| o.iter().map(|e| e + 1).collect()).unwrap_or_default() }
 }
 
 pub fn run(lines: &[Value], opts: &FlowOpts, trace_path: &str) -> Summary {
@@ -319,7 +243,7 @@ pub fn run(lines: &[Value], opts: &FlowOpts, trace_path: &str) -> Summary {
             sm.count(&format!("outcome_{}", fr.outcome.name()));
             if e >= 3 { sm.nontrivial += 1; }
             let reset = json!({"ev": "Reset", "run": run_id, "g": inst["g"], "stab": set.stability.is_some(), "debug": set.debug, "meta": set.meta,
-                               "x": x.iter().map(|v| hexf(*v)).collect::<Vec<_>>(), "extra": extra,
+                               "x": x.iter().map(|v| hexf(*v)).collect::<Vec<_>>(), "extra": extra, "order": fr.order,
                                "lat": lat.iter().map(|l| l.map(|p| p.0).unwrap_or(-1)).collect::<Vec<_>>()});
             writeln!(f, "{}", reset).unwrap();
             sm.events += 1 + fr.events.len() as u64;
@@ -348,6 +272,8 @@ pub fn replay(resets: &[Value], seed: u64, trace_path: &str) -> Summary {
         let set = Settings::new(if r["stab"].as_bool().unwrap_or(false) { Some(1e-6) } else { None }, r["debug"].as_bool().unwrap_or(false), r["meta"].as_bool().unwrap_or(true));
         let extra = r.get("extra").and_then(|v| v.as_u64()).unwrap_or(0) as usize;
         let fr = trace_one(s.as_ref(), &g, &x, &lat, extra, &set, &mut rng);
+        let mut r = r.clone();
+        r["order"] = json!(fr.order);
         writeln!(f, "{}", r).unwrap();
         for ev in &fr.events { writeln!(f, "{}", ev).unwrap(); }
         sm.evaluations += 1;
